@@ -4,168 +4,311 @@
 (* operators are evaluated by TLC on the specification (every schedule,    *)
 (* every model of the family) and, through Observe.tla, on the states the  *)
 (* implementation was observed in.                                         *)
+(*                                                                         *)
+(* Every property is a set V_<name> of violation records                   *)
+(*     [p |-> name, pid |-> process, t |-> task, kf |-> known findings]    *)
+(* `kf` is the set of known-finding classifiers (Findings below) that      *)
+(* explain this very violation; the raw property is V = {}, the property   *)
+(* modulo known findings is "every v in V has v.kf # {}".                  *)
 (***************************************************************************)
 EXTENDS Acts
 
 Started(pid) == procs[pid].st # "absent"
 Live(pid) == Started(pid) /\ procs[pid].ts # <<>>
 Quiescent == queue = {} /\ spawn = {}
+LivePids == { pid \in Pids : Live(pid) }
 
 P(pid) == procs[pid]                       \* also serves as the S record of Acts' operators
 ND(pid, t) == Trees[procs[pid].mi].n[t[1]]
+TR(pid) == Trees[procs[pid].mi]
 TaskKeys(pid) == DOMAIN procs[pid].ts
+TS(pid, t) == procs[pid].ts[t]
 
 Desc(S, t) == { u \in DOMAIN S.ts : t \in AncSet(S, u) }
 
+(* tasks reachable from t through prev links (t's whole continuation) *)
+RECURSIVE After(_, _, _)
+After(S, frontier, seen) ==
+  IF frontier = {} THEN seen
+  ELSE LET nxt == { u \in DOMAIN S.ts : S.ts[u].prev \in frontier } \ seen
+       IN After(S, nxt, seen \cup nxt)
+Continuation(S, t) == After(S, {t}, {t})
+
+(* tree ancestors of a node *)
+RECURSIVE NodeAnc(_, _)
+NodeAnc(T, id) == LET p == NodeParent(T, id) IN IF p = NIL THEN {} ELSE {p} \cup NodeAnc(T, p)
+
 IsIrq(pid, t) == ND(pid, t).kind = "act" /\ ND(pid, t).uses = "irq"
-OpenIrq(pid) == \E t \in TaskKeys(pid) : P(pid).ts[t].st = "interrupted" /\ ND(pid, t).kind = "act"
+OpenIrq(pid) == \E t \in TaskKeys(pid) : TS(pid, t).st = "interrupted" /\ ND(pid, t).kind = "act"
 Terminated(pid) == procs[pid].ev.term >= 1
+
+V(name, pid, t, kfs) == [p |-> name, pid |-> pid, t |-> t, kf |-> kfs]
+Holds(VS) == VS = {}
+HoldsX(VS) == \A v \in VS : v.kf # {}
+
+-----------------------------------------------------------------------------
+(* Known findings: classifiers specific to the failing input / call site.   *)
+(* Each is listed in /verif/known_findings.json under the same id.          *)
+
+(* KF_back_enclosing: `back` whose target step is an ENCLOSING (still       *)
+(* running) step of the act: the re-created step is queued under the        *)
+(* target's predecessor while the enclosing step itself runs on to its end; *)
+(* the flow finishes past the re-created step (task.rs:433-459,             *)
+(* context.rs:275-325).  Explains open tasks in the continuation of such a  *)
+(* re-created step.                                                         *)
+RedoOfEnclosing(pid, u) ==
+  /\ TS(pid, u).redo
+  /\ \E a \in TaskKeys(pid) :
+       /\ TS(pid, a).st = "backed" /\ ND(pid, a).kind = "act"
+       /\ u[1] \in NodeAnc(TR(pid), a[1])
+KF_back_enclosing(pid, t) ==
+  \E u \in TaskKeys(pid) :
+    /\ RedoOfEnclosing(pid, u)
+    /\ \/ t \in Continuation(P(pid), u)               \* what the re-created step started
+       \/ \E o \in TaskKeys(pid) :                     \* what the old instance left behind
+            o[1] = u[1] /\ o # u /\ (t \in Continuation(P(pid), o) \/ t \in Desc(P(pid), o))
+
+(* KF_cancel_chain: `cancel` closes the open prev-children of the following *)
+(* step level by level but does not descend through a finished child, so    *)
+(* an act chained behind a finished act (a2 after a1 in one step) stays     *)
+(* open under a step that is marked completed (context.rs:364-393).         *)
+KF_cancel_chain(pid, t) ==
+  /\ ND(pid, t).kind = "act"
+  /\ LET p == TS(pid, t).prev IN
+     /\ p \in TaskKeys(pid) /\ ND(pid, p).kind = "act" /\ IsDone(TS(pid, p).st)
+     /\ \E s \in AncSet(P(pid), t) : ND(pid, s).kind = "step" /\ TS(pid, s).st = "completed"
+                                      /\ \E r \in TaskKeys(pid) : TS(pid, r).redo
+
+(* KF_nested_review_dup: a step whose review (or next) resumes a pending    *)
+(* else/needs branch that has no steps: the branch finishes inline, reviews *)
+(* the step (which completes and reports), and the outer review, seeing the *)
+(* state changed, reports the step's ending a second time                   *)
+(* (task.rs:916-948, step.rs:103-116).                                      *)
+KF_nested_review_dup(pid, t) ==
+  /\ ND(pid, t).kind = "step"
+  /\ \E b \in KidSet(P(pid), t) :
+       /\ ND(pid, b).kind = "branch" /\ ND(pid, b).kids = <<>>
+       /\ (ND(pid, b).else \/ ND(pid, b).needs # {})
+       /\ TS(pid, b).st = "completed"
 
 -----------------------------------------------------------------------------
 (* C01 — whenever nothing is in flight, every started process has delivered  *)
 (* its terminal event or waits on an open interrupt act.                     *)
-C01_QuiescentOK ==
-  Quiescent => \A pid \in Pids : Live(pid) => Terminated(pid) \/ OpenIrq(pid)
+V_C01_QuiescentOK ==
+  IF ~Quiescent THEN {}
+  ELSE { V("C01_QuiescentOK", pid, NoKey, {}) :
+           pid \in { q \in LivePids : ~Terminated(q) /\ ~OpenIrq(q) } }
 
 (* C02 — only legal transitions; every write is judged where it happens      *)
-(* (Acts!SetStVia) and offenders are collected in `viol`.                    *)
-C02_Lifecycle == \A pid \in Pids : Started(pid) => procs[pid].viol = {}
+(* (Acts!SetStVia / the observed write events) and collected in `viol`.      *)
+V_C02_Lifecycle ==
+  UNION { { V("C02_Lifecycle", pid, w.t, {}) : w \in procs[pid].viol } :
+          pid \in { q \in Pids : Started(q) } }
 
 -----------------------------------------------------------------------------
 (* C03 *)
-C03_ParentDone ==
-  \A pid \in Pids : Live(pid) =>
-    \A t \in TaskKeys(pid) :
-      P(pid).ts[t].st = "completed" =>
-        \A u \in Desc(P(pid), t) : IsDone(P(pid).ts[u].st)
+V_C03_ParentDone ==
+  UNION { UNION { { V("C03_ParentDone", pid, u,
+                      {k \in {"KF_back_enclosing"} : KF_back_enclosing(pid, u)}
+                      \cup {k \in {"KF_cancel_chain"} : KF_cancel_chain(pid, u)})
+                    : u \in { x \in Desc(P(pid), t) : ~IsDone(TS(pid, x).st) } }
+                  : t \in { x \in TaskKeys(pid) : TS(pid, x).st = "completed" } }
+          : pid \in LivePids }
 
-C03_ProcMirrorsRoot ==
-  \A pid \in Pids : Live(pid) =>
-    LET root == RootKey(P(pid)) IN
-    root \in TaskKeys(pid) =>
-      ((IsDone(P(pid).ts[root].st) \/ IsDone(P(pid).ps)) => P(pid).ps = P(pid).ts[root].st)
+V_C03_ProcMirrorsRoot ==
+  { V("C03_ProcMirrorsRoot", pid, NoKey, {}) :
+      pid \in { q \in LivePids :
+                 LET root == RootKey(P(q)) IN
+                 /\ root \in TaskKeys(q)
+                 /\ (IsDone(TS(q, root).st) \/ IsDone(P(q).ps))
+                 /\ P(q).ps # TS(q, root).st } }
 
-C03_Events ==
-  \A pid \in Pids : Started(pid) =>
-    LET ev == procs[pid].ev IN
-    /\ ev.start <= 1 /\ ev.term <= 1
-    /\ (ev.term >= 1 => ev.start >= 1)
-    /\ Cardinality(ev.kinds) <= 1
+V_C03_Events ==
+  { V("C03_Events", pid, NoKey, {}) :
+      pid \in { q \in Pids :
+                 /\ Started(q)
+                 /\ LET ev == procs[q].ev IN
+                    ~ ( /\ ev.start <= 1 /\ ev.term <= 1
+                        /\ (ev.term >= 1 => ev.start >= 1)
+                        /\ Cardinality(ev.kinds) <= 1 ) } }
 
-C03_TerminalEvent ==
-  \A pid \in Pids : Live(pid) /\ IsDone(P(pid).ps) => procs[pid].ev.term >= 1
+V_C03_TerminalEvent ==
+  { V("C03_TerminalEvent", pid, NoKey, {}) :
+      pid \in { q \in LivePids : IsDone(P(q).ps) /\ procs[q].ev.term = 0 } }
 
 (* a non-error ending leaves nothing open (a queued task in state none is    *)
 (* open: it will be executed and open new tasks)                             *)
-C03_CleanEnding ==
-  \A pid \in Pids : Live(pid) /\ procs[pid].ev.kinds = {"complete"} =>
-    \A t \in TaskKeys(pid) : IsDone(P(pid).ts[t].st)
+V_C03_CleanEnding ==
+  UNION { { V("C03_CleanEnding", pid, t,
+              {k \in {"KF_back_enclosing"} : KF_back_enclosing(pid, t)}
+              \cup {k \in {"KF_cancel_chain"} : KF_cancel_chain(pid, t)})
+            : t \in { x \in TaskKeys(pid) : ~IsDone(TS(pid, x).st) } }
+          : pid \in { q \in LivePids : procs[q].ev.kinds = {"complete"} } }
 
 -----------------------------------------------------------------------------
 (* C05 *)
-C05_Admission ==
-  lastRes = "ok" /\ lastAct.a = "Act" =>
-    /\ lastAct.st # "absent"
-    /\ (lastAct.kind = "push" => ND(lastAct.pid, lastAct.t).kind = "step")
-    /\ (lastAct.kind # "push" => ND(lastAct.pid, lastAct.t).kind = "act")
+ActLabel == lastAct.a = "Act"
 
-C05_TerminalRejected ==
-  lastAct.a = "Act" /\ lastAct.kind \in TerminalKinds /\ IsDone(lastAct.st) => lastRes = "err"
+V_C05_Admission ==
+  IF ActLabel /\ lastRes = "ok"
+     /\ ~ ( /\ lastAct.st \notin {"absent"}
+            /\ (lastAct.kind = "push" => ND(lastAct.pid, lastAct.t).kind = "step")
+            /\ (lastAct.kind # "push" => ND(lastAct.pid, lastAct.t).kind = "act") )
+  THEN { V("C05_Admission", lastAct.pid, lastAct.t, {}) } ELSE {}
 
-C05_AtMostOnce ==
-  \A pid \in Pids : Live(pid) => \A t \in TaskKeys(pid) : P(pid).ts[t].okterm <= 1
+V_C05_TerminalRejected ==
+  IF ActLabel /\ lastAct.kind \in TerminalKinds /\ IsDone(lastAct.st) /\ lastRes # "err"
+  THEN { V("C05_TerminalRejected", lastAct.pid, lastAct.t, {}) } ELSE {}
+
+V_C05_AtMostOnce ==
+  UNION { { V("C05_AtMostOnce", pid, t, {}) : t \in { x \in TaskKeys(pid) : TS(pid, x).okterm > 1 } }
+          : pid \in LivePids }
 
 (* successors are created exactly once: no two tasks of one node hang off    *)
 (* the same predecessor, unless back/cancel re-created the step              *)
-C05_NoDupSuccessor ==
-  \A pid \in Pids : Live(pid) =>
-    \A u, v \in TaskKeys(pid) :
-      (u # v /\ u[1] = v[1] /\ P(pid).ts[u].prev = P(pid).ts[v].prev)
-        => (P(pid).ts[u].redo \/ P(pid).ts[v].redo)
+V_C05_NoDupSuccessor ==
+  UNION { { V("C05_NoDupSuccessor", pid, u, {}) :
+              u \in { x \in TaskKeys(pid) :
+                       \E v \in TaskKeys(pid) :
+                         /\ x # v /\ x[1] = v[1] /\ TS(pid, x).prev = TS(pid, v).prev
+                         /\ ~TS(pid, x).redo /\ ~TS(pid, v).redo } }
+          : pid \in LivePids }
 
 (* a rejected complete/submit/skip/remove/abort/error/back changes nothing   *)
-C05_RejectedIsNoop ==
-  [][ (lastRes' = "err" /\ lastAct'.kind \in TerminalKinds)
-        => (UNCHANGED <<procs, queue, spawn>> /\ lastOut' = <<>>) ]_vars
+C05_RejectedIsNoopStep ==
+  (lastRes' = "err" /\ lastAct'.a = "Act" /\ lastAct'.kind \in TerminalKinds)
+     => (UNCHANGED <<procs, queue, spawn>> /\ lastOut' = <<>>)
+C05_RejectedIsNoop == [][C05_RejectedIsNoopStep]_vars
 
 -----------------------------------------------------------------------------
 (* C06 *)
 (* an error that no catch took has climbed: the parent carries the same code, *)
 (* the root's error is the process's error                                    *)
-C06_Propagates ==
-  Quiescent => \A pid \in Pids : Live(pid) =>
-    \A t \in TaskKeys(pid) :
-      P(pid).ts[t].st = "error" =>
-        LET p == ParentOf(P(pid), t)  e == P(pid).ts[t].err IN
-        IF p = NoKey THEN P(pid).ps = "error" /\ P(pid).perr = e
-        ELSE \/ P(pid).ts[p].st = "error" /\ P(pid).ts[p].err = e
-             \/ P(pid).ts[p].catchDone /\ P(pid).ts[p].caught = e      \* taken by the parent's catch
+V_C06_Propagates ==
+  IF ~Quiescent THEN {}
+  ELSE UNION { { V("C06_Propagates", pid, t, {}) :
+                   t \in { x \in TaskKeys(pid) :
+                            /\ TS(pid, x).st = "error"
+                            /\ LET p == ParentOf(P(pid), x)  e == TS(pid, x).err IN
+                               ~ IF p = NoKey THEN P(pid).ps = "error" /\ P(pid).perr = e
+                                 ELSE \/ TS(pid, p).st = "error" /\ TS(pid, p).err = e
+                                      \/ TS(pid, p).catchDone /\ TS(pid, p).caught = e } }
+               : pid \in LivePids }
 
 (* a catch takes only an error it matches, and it is the first matching one  *)
-C06_CatchMatches ==
-  \A pid \in Pids : Live(pid) =>
-    \A t \in TaskKeys(pid) :
-      P(pid).ts[t].catchDone =>
-        LET cs == ND(pid, t).catches  i == P(pid).ts[t].caughtBy  code == P(pid).ts[t].caught IN
-        /\ i \in DOMAIN cs
-        /\ (cs[i] = NIL \/ cs[i] = code)
-        /\ \A j \in 1..(i - 1) : ~(cs[j] = NIL \/ cs[j] = code)
+V_C06_CatchMatches ==
+  UNION { { V("C06_CatchMatches", pid, t, {}) :
+              t \in { x \in TaskKeys(pid) :
+                       /\ TS(pid, x).catchDone
+                       /\ LET cs == ND(pid, x).catches  i == TS(pid, x).caughtBy
+                              code == TS(pid, x).caught IN
+                          ~ ( /\ i \in DOMAIN cs
+                              /\ (cs[i] = NIL \/ cs[i] = code)
+                              /\ \A j \in 1..(i - 1) : ~(cs[j] = NIL \/ cs[j] = code) ) } }
+          : pid \in LivePids }
 
 (* the steps of the catch that took the error are instantiated exactly once,  *)
 (* those of the other catches never                                           *)
-C06_CatchStepsOnce ==
-  \A pid \in Pids : Live(pid) =>
-    \A t \in TaskKeys(pid) :
-      LET n == ND(pid, t)
-          inst(id) == { u \in TaskKeys(pid) : u[1] = id /\ P(pid).ts[u].prev = t } IN
-      \A c \in DOMAIN n.ckids :
-        IF P(pid).ts[t].catchDone /\ n.catches[P(pid).ts[t].caughtBy] = n.ckids[c].on
-        THEN Cardinality(inst(n.ckids[c].id)) = 1
-        ELSE Cardinality(inst(n.ckids[c].id)) = 0
+V_C06_CatchStepsOnce ==
+  UNION { { V("C06_CatchStepsOnce", pid, t, {}) :
+              t \in { x \in TaskKeys(pid) :
+                       LET n == ND(pid, x)
+                           inst(id) == { u \in TaskKeys(pid) : u[1] = id /\ TS(pid, u).prev = x } IN
+                       \E c \in DOMAIN n.ckids :
+                         IF TS(pid, x).catchDone /\ TS(pid, x).caughtBy \in DOMAIN n.catches
+                            /\ n.catches[TS(pid, x).caughtBy] = n.ckids[c].on
+                         THEN Cardinality(inst(n.ckids[c].id)) # 1
+                         ELSE Cardinality(inst(n.ckids[c].id)) # 0 } }
+          : pid \in LivePids }
 
-(* once the catch steps are finished the catching task has completed          *)
-C06_CaughtCompletes ==
-  Quiescent => \A pid \in Pids : Live(pid) =>
-    \A t \in TaskKeys(pid) :
-      (P(pid).ts[t].catchDone /\ \A u \in Desc(P(pid), t) : IsDone(P(pid).ts[u].st))
-        => P(pid).ts[t].st # "running"
+(* once the catch steps are finished the catching task is no longer running   *)
+V_C06_CaughtCompletes ==
+  IF ~Quiescent THEN {}
+  ELSE UNION { { V("C06_CaughtCompletes", pid, t, {}) :
+                   t \in { x \in TaskKeys(pid) :
+                            /\ TS(pid, x).catchDone /\ TS(pid, x).st = "running"
+                            /\ \A u \in Desc(P(pid), x) : IsDone(TS(pid, u).st) } }
+               : pid \in LivePids }
 
 -----------------------------------------------------------------------------
 (* C08 (generation side) *)
 Emits(pid, t) == ND(pid, t).kind \in {"workflow", "step"} \/ IsIrq(pid, t)
 
-C08_AtMostOne ==
-  \A pid \in Pids : Live(pid) =>
-    \A t \in TaskKeys(pid) : P(pid).ts[t].mcre <= 1 /\ P(pid).ts[t].mterm <= 1
+V_C08_AtMostOne ==
+  UNION { { V("C08_AtMostOne", pid, t,
+              {k \in {"KF_nested_review_dup"} :
+                 KF_nested_review_dup(pid, t) /\ TS(pid, t).mcre <= 1})
+            : t \in { x \in TaskKeys(pid) : TS(pid, x).mcre > 1 \/ TS(pid, x).mterm > 1 } }
+          : pid \in LivePids }
 
-C08_CreatedFirst ==      \* a terminal message of a task that was open follows its created one
-  \A pid \in Pids : Live(pid) =>
-    \A t \in TaskKeys(pid) :
-      (Emits(pid, t) /\ P(pid).ts[t].st \in (Created \cup {"running"})) => P(pid).ts[t].mcre = 1
+V_C08_CreatedFirst ==      \* a task that is open has been announced
+  UNION { { V("C08_CreatedFirst", pid, t, {}) :
+              t \in { x \in TaskKeys(pid) :
+                       /\ Emits(pid, x) /\ TS(pid, x).st \in (Created \cup {"running"})
+                       /\ TS(pid, x).mcre = 0 } }
+          : pid \in LivePids }
 
-C08_TerminalReported ==
-  \A pid \in Pids : Live(pid) =>
-    \A t \in TaskKeys(pid) :
-      (Emits(pid, t) /\ IsDone(P(pid).ts[t].st)) => P(pid).ts[t].mterm >= 1
+V_C08_TerminalReported ==
+  UNION { { V("C08_TerminalReported", pid, t, {}) :
+              t \in { x \in TaskKeys(pid) :
+                       Emits(pid, x) /\ IsDone(TS(pid, x).st) /\ TS(pid, x).mterm = 0 } }
+          : pid \in LivePids }
 
-C08_BranchSilent ==
-  \A pid \in Pids : Live(pid) =>
-    \A t \in TaskKeys(pid) :
-      ND(pid, t).kind = "branch" => P(pid).ts[t].mcre = 0 /\ P(pid).ts[t].mterm = 0
+V_C08_BranchSilent ==
+  UNION { { V("C08_BranchSilent", pid, t, {}) :
+              t \in { x \in TaskKeys(pid) :
+                       ND(pid, x).kind = "branch" /\ (TS(pid, x).mcre > 0 \/ TS(pid, x).mterm > 0) } }
+          : pid \in LivePids }
 
-C08_MsgAct ==
-  \A pid \in Pids : Live(pid) =>
-    \A t \in TaskKeys(pid) :
-      (ND(pid, t).kind = "act" /\ ND(pid, t).uses = "msg") =>
-        /\ P(pid).ts[t].mcre = 0
-        /\ (P(pid).ts[t].st = "completed" => P(pid).ts[t].mterm = 1)
+V_C08_MsgAct ==
+  UNION { { V("C08_MsgAct", pid, t, {}) :
+              t \in { x \in TaskKeys(pid) :
+                       /\ ND(pid, x).kind = "act" /\ ND(pid, x).uses = "msg"
+                       /\ ~ ( /\ TS(pid, x).mcre = 0
+                              /\ (TS(pid, x).st = "completed" => TS(pid, x).mterm = 1) ) } }
+          : pid \in LivePids }
 
-C08_ParentFirst ==
-  \A pid \in Pids : Live(pid) =>
-    \A t \in TaskKeys(pid) :
-      P(pid).ts[t].mcre >= 1 =>
-        LET p == ParentOf(P(pid), t) IN
-        (p # NoKey /\ ND(pid, p).kind \in {"workflow", "step"}) => P(pid).ts[p].mcre >= 1
+V_C08_ParentFirst ==
+  UNION { { V("C08_ParentFirst", pid, t, {}) :
+              t \in { x \in TaskKeys(pid) :
+                       /\ TS(pid, x).mcre >= 1
+                       /\ LET p == ParentOf(P(pid), x) IN
+                          /\ p # NoKey /\ ND(pid, p).kind \in {"workflow", "step"}
+                          /\ TS(pid, p).mcre = 0 } }
+          : pid \in LivePids }
+
+-----------------------------------------------------------------------------
+(* the invariants TLC checks: each property modulo known findings ...        *)
+C01_QuiescentOK      == HoldsX(V_C01_QuiescentOK)
+C02_Lifecycle        == HoldsX(V_C02_Lifecycle)
+C03_ParentDone       == HoldsX(V_C03_ParentDone)
+C03_ProcMirrorsRoot  == HoldsX(V_C03_ProcMirrorsRoot)
+C03_Events           == HoldsX(V_C03_Events)
+C03_TerminalEvent    == HoldsX(V_C03_TerminalEvent)
+C03_CleanEnding      == HoldsX(V_C03_CleanEnding)
+C05_Admission        == HoldsX(V_C05_Admission)
+C05_TerminalRejected == HoldsX(V_C05_TerminalRejected)
+C05_AtMostOnce       == HoldsX(V_C05_AtMostOnce)
+C05_NoDupSuccessor   == HoldsX(V_C05_NoDupSuccessor)
+C06_Propagates       == HoldsX(V_C06_Propagates)
+C06_CatchMatches     == HoldsX(V_C06_CatchMatches)
+C06_CatchStepsOnce   == HoldsX(V_C06_CatchStepsOnce)
+C06_CaughtCompletes  == HoldsX(V_C06_CaughtCompletes)
+C08_AtMostOne        == HoldsX(V_C08_AtMostOne)
+C08_CreatedFirst     == HoldsX(V_C08_CreatedFirst)
+C08_TerminalReported == HoldsX(V_C08_TerminalReported)
+C08_BranchSilent     == HoldsX(V_C08_BranchSilent)
+C08_MsgAct           == HoldsX(V_C08_MsgAct)
+C08_ParentFirst      == HoldsX(V_C08_ParentFirst)
+
+(* ... and everything at once, for the observed behaviours *)
+AllV ==
+  V_C01_QuiescentOK \cup V_C02_Lifecycle \cup V_C03_ParentDone \cup V_C03_ProcMirrorsRoot
+  \cup V_C03_Events \cup V_C03_TerminalEvent \cup V_C03_CleanEnding \cup V_C05_Admission
+  \cup V_C05_TerminalRejected \cup V_C05_AtMostOnce \cup V_C05_NoDupSuccessor
+  \cup V_C06_Propagates \cup V_C06_CatchMatches \cup V_C06_CatchStepsOnce
+  \cup V_C06_CaughtCompletes \cup V_C08_AtMostOne \cup V_C08_CreatedFirst
+  \cup V_C08_TerminalReported \cup V_C08_BranchSilent \cup V_C08_MsgAct \cup V_C08_ParentFirst
 
 (* debugging aid: bound on instances per node *)
 DBG_FewInstances == \A pid \in Pids : Live(pid) => \A t \in TaskKeys(pid) : t[2] <= 3
